@@ -250,7 +250,7 @@ def run_series(vec, eid, workdir):
                 for row in vec["rows"]:
                     lines.append(",".join("--undefined--" if c == -1 else repr(vals[c]) for c in row))
                 with open(fn, "w", encoding="utf-8") as f:
-                    f.write("\n".join(lines) + "\n")
+                    f.write("\n".join(lines) + ("" if a.get("nonl") else "\n"))     # the last row need not end with a newline
                 try:
                     r = pai.loadTimeSeriesData(fn, a["undef"] if a["subst"] else None)
                 finally:
@@ -319,10 +319,14 @@ def rand_series_vectors(n, seed):
         elif op == "znorm":
             if L < 2 or len(set(xs)) < 2:
                 continue                                                     # standard deviation undefined
+            if rng.random() < 0.25:
+                xs = [x + 100000000 for x in xs]                             # a mean that dwarfs the spread (exact in binary64)
             out.append({"op": op, "xs": xs, "args": {"k": 0}})
         elif op == "speakerz":
             if L < 2 or len(set(xs)) < 2:
                 continue
+            if rng.random() < 0.25:
+                xs = [x + 100000000 for x in xs]
             ncol = rng.randint(1, 3)
             out.append({"op": op, "xs": xs, "args": {"ncol": ncol, "index": rng.randint(1, ncol)}})
         elif op == "rms":
@@ -347,7 +351,7 @@ def rand_series_vectors(n, seed):
                 rows.append(row)
             if op == "listing":
                 out.append({"op": op, "rows": rows, "values": vals, "args": {"header": rng.random() < 0.5, "subst": rng.random() < 0.5,
-                                                                             "undef": rng.choice([0.0, 0, -1.0, 999.25])}})
+                                                                             "undef": rng.choice([0.0, 0, -1.0, 999.25]), "nonl": rng.random() < 0.3}})
             else:
                 out.append({"op": op, "rows": rows, "values": vals, "args": {"window": rng.choice([0, 3, 5]), "index": rng.randint(2, ncol), "pad": rng.random() < 0.5}})
     return out
